@@ -186,9 +186,11 @@ def simulate(spec):
     sim = Sim(programs, exec_op, make_decider(spec, len(programs), nops), mode=cfg["mode"],
               opcode=cfg.get("opcode", False), faults=spec.get("faults"), on_boundary=on_boundary,
               roles={int(k): v for k, v in (spec.get("roles") or {}).items()})
+    sim.record_where_task = spec.get("record_where_task")
     sim.run()
     results = [t.results for t in sim.tasks]
     return {
+        "where_log": sim.where_log,
         "results": results, "globals_at": globals_at, "post": post, "o2": snaps.violations,
         "schedule": sim.schedule, "faults_fired": sim.fault_fired, "events": sim.events, "steps": sim.steps,
         "switches": sim.switches, "overlap": sorted([[a, c, n] for (a, c), n in sim.overlap.items()]),
